@@ -59,7 +59,7 @@ impl Property for C08 {
         "C08"
     }
     fn rule(&self) -> String {
-        "a reachable tree state (0..10 generated set/delete/append/set_range operations) followed by 1..3 batch requests drawn from forced shape classes (write-only, remove-only incl. scattered/unsorted/duplicate, removals before/inside/after/interleaved with the written range, empty both, start in {0, mark, near end, cap, cap+1, usize::MAX}, removal >= cap, batch initialisation incl. over-capacity); \
+        "a reachable tree state (0..10 generated set/delete/append/set_range operations; for every third case with the persistent backend additionally closed and reopened from disk) followed by 1..3 batch requests drawn from forced shape classes (write-only, remove-only incl. scattered/unsorted/duplicate, removals before/inside/after/interleaved with the written range, empty both, start in {0, mark, near end, cap, cap+1, usize::MAX}, removal >= cap, batch initialisation incl. over-capacity); \
          entry points: trait override_range on full/optimal/pmtree and RLN::atomic_operation / set_leaves_from / init_tree_with_leaves; after every request every leaf, every subtree root, the root and leaves_set() are compared with the ideal model (effect exactly as documented, or rejected with every observation unchanged; a panic is a violation). \
          non-trivial = batch with both parts non-empty and a removal outside the written range, or a rejected batch on a non-empty tree; distinct by case content".into()
     }
@@ -157,6 +157,55 @@ impl Property for C08 {
         }
         o.nontrivial = nontrivial;
         run_history(ctx, case, Focus::STATE, true, &mut o);
+        // states reached through a close + reopen of a persistent tree are reachable states too:
+        // every third case with the persistent backend repeats the history on a non-temporary tree
+        // that is flushed, dropped and reopened right before the first batch request
+        if !o.failed() && case.backends.contains(&BackendKind::Pm) && case_hash(case) % 3 == 0 && case.depth <= 10 {
+            o.label("persistent-reopened-before-batch");
+            let base = ctx.tmpdir.join(format!("c08-{:016x}-{:?}", case_hash(case), std::thread::current().id()));
+            let _ = std::fs::remove_dir_all(&base);
+            let c16case = super::c16::Case {
+                depth: case.depth,
+                cfg: super::c16::StoreCfg { cache: 0, flush_ms: 0, low_space: false, compression: false, path_style: 0 },
+                api: super::c16::Api::Trait,
+                ops: vec![],
+                mode: super::c16::Mode::NoFault,
+            };
+            let mut st = super::c16::Store::new(&c16case, &base);
+            match st.open() {
+                Ok(Ok(())) => {
+                    let mut m = TreeModel::new(case.depth, Fr::from(0u64));
+                    let mut reopened = false;
+                    for (k, op) in case.ops.iter().enumerate() {
+                        if !reopened && matches!(op, Op::Batch(..) | Op::Init(..)) {
+                            reopened = true;
+                            let ok = matches!(st.bm().apply(&ROp::Flush), Some(Ok(Ok(()))));
+                            st.close();
+                            if !ok || !matches!(st.open(), Ok(Ok(()))) {
+                                vfail!(o, "persistent tree: flush + reopen before step {k} failed");
+                                break;
+                            }
+                        }
+                        let is_batch = matches!(op, Op::Batch(..));
+                        match step(ctx, st.bm(), &mut m, op, Focus::STATE, is_batch) {
+                            Ok(rep) => {
+                                o.evals += rep.evals;
+                                for s in rep.skipped_known {
+                                    o.exclude(s);
+                                }
+                            }
+                            Err(e) => {
+                                vfail!(o, "persistent tree reopened before the first batch, depth {} step {k}: {e}", case.depth);
+                                break;
+                            }
+                        }
+                    }
+                }
+                other => vfail!(o, "cannot open a persistent tree: {:?}", other.map(|r| r.map(|_| ())).map_err(|p| p.0)),
+            }
+            st.close();
+            let _ = std::fs::remove_dir_all(&base);
+        }
         o
     }
     fn sample_view(&self, case: &TreeCase) -> serde_json::Value {
